@@ -28,7 +28,8 @@ CONSTANTS U,          \* universe of hashes <<hi, lo>>
           Autos,      \* initial auto_expand settings
           RszArgs,    \* arguments tried for resize (0 = None/double)
           MergeOps,   \* set of <<T, q2>>: second operand of a merge (set held, its quotient size)
-          NPARTS, PART   \* emission partition
+          NPARTS, PART,  \* emission partition
+          EmitLayout     \* FALSE for the large quotient sizes (2^16, 2^24 slots): the slot table is not materialised there
 
 VARIABLES S, q, cnt, auto, c0, hist, last
 vars == <<S, q, cnt, auto, c0, hist, last>>
@@ -233,5 +234,5 @@ FirstOp == <<"add", CHOOSE h \in U : TRUE>>
 
 Emit == Mine => PrintT(ToJson([c |-> c0, h |-> hist, a |-> last'[1],
                   e |-> [S |-> S', q |-> q', cnt |-> cnt', err |-> last'[2]],
-                  lay |-> IF last'[1] = FirstOp THEN LaySeq(S, q) ELSE <<>>]))
+                  lay |-> IF EmitLayout /\ last'[1] = FirstOp THEN LaySeq(S, q) ELSE <<>>]))
 =============================================================================
